@@ -17,6 +17,8 @@ path of the repository (entries → IsRevoked → handshake verdict).
   replace <sid> <other> ; close <sid> ; delete <sid> ; reopen <sid> → ok | error
   fault <sid> none|io|corrupt|<n>         → ok
   entry <eid> none | entry <eid> <sid|nil> <loaded>           → ok
+  repoclose                               → ok | panic        (Repository.Close over all entries)
+  metart <year|->                         → readable | unreadable   (CRLMetaInfo.NextUpdate serializer round trip)
   isrevoked <gateError> <iss> <dec> <eid>*                    → good | revoked | error | panic
   verify <mode> <ocspOutcome> <gateError> <iss> <dec> <eid>*  → accept | reject | panic
 -/
@@ -26,6 +28,7 @@ open Crv Crv.Store
 structure DEntry where
   loaded : Bool
   store : Option String   -- none: CRLStore == nil
+  closed : Bool := false
 
 structure State where
   disk : Disk := Disk.empty
@@ -101,10 +104,10 @@ def resolve (s : State) : List String → Option (List (Option Entry))
     | some none, some r => some (none :: r)
     | some (some de), some r =>
       match de.store with
-      | none => some (some { loaded := de.loaded, store := none } :: r)
+      | none => some (some { loaded := de.loaded, store := none, closed := de.closed } :: r)
       | some sid =>
         match anyStore s sid with
-        | some st => some (some { loaded := de.loaded, store := some st } :: r)
+        | some st => some (some { loaded := de.loaded, store := some st, closed := de.closed } :: r)
         | none => none
     | _, _ => none
 
@@ -216,6 +219,36 @@ def step (s : State) (ws : List String) : State × String :=
         | some _ => ({ s with entries := setS s.entries eid (some { loaded := l, store := some sid }) }, "ok")
         | none => (s, "bad-op")
     | none => (s, "bad-op")
+  | ["repoclose"] =>
+    -- Repository.Close over all entries (most recently defined first; the order is immaterial)
+    let rec go (s : State) : List (String × Option DEntry) → Option State
+      | [] => some s
+      | (eid, de) :: rest =>
+        match resolve s [eid] with
+        | some [e] =>
+          match closeEntry s.disk e with
+          | none => none
+          | some (d1, e1) =>
+            let s1 : State := { s with disk := d1 }
+            let s2 : State :=
+              match e1, de with
+              | none, _ => { s1 with entries := setS s1.entries eid none }
+              | some e', some de' =>
+                let s' : State := { s1 with entries := setS s1.entries eid (some { de' with closed := e'.closed }) }
+                match e'.store, de'.store with
+                | some (.ldb h'), some sid => { s' with ldbs := setS s'.ldbs sid h' }
+                | _, _ => s'
+              | some _, none => s1
+            go s2 rest
+        | _ => none
+    match go s s.entries with
+    | some s' => (s', "ok")
+    | none => (s, "panic")
+  | ["metart", y] =>
+    if y = "-" then (s, if metaNextUpdateReadable none then "readable" else "unreadable")
+    else match y.toNat? with
+      | some n => (s, if metaNextUpdateReadable (some n) then "readable" else "unreadable")
+      | none => (s, "bad-op")
   | "isrevoked" :: gate :: i :: n :: eids =>
     match parseBool gate, parseHex i, n.toInt?, resolve s eids with
     | some g, some i, some z, some es => (s, chkStr (isRevoked s.dec s.disk g es i z))
